@@ -112,8 +112,41 @@ class Engine(ExprMixin, CallMixin):
         if z3.is_true(goal):
             self.trivial += 1
             return
-        self.obls.append(Obligation(f"{self.cur_name}#{name}", list(self.global_facts) + list(st.pc) + [to_z3(g) for g in guard], goal,
+        hyps = list(st.pc) + [to_z3(g) for g in guard]
+        self.obls.append(Obligation(f"{self.cur_name}#{name}", self.relevant_global_facts(hyps + [goal]) + hyps, goal,
                                     line=getattr(node, "lineno", None), kind=kind))
+
+    def _memo_names(self, f):
+        """names of the memoised auxiliary variables (inv!k of real_div, norm!k of the norm external) occurring in f"""
+        cache = self.__dict__.setdefault("_memo_name_cache", {})
+        k = f.get_id()
+        if k not in cache:
+            cache[k] = (f, frozenset(str(c) for c in _free_consts(f) if str(c).startswith(("inv!", "norm!"))))  # f kept alive: ids are reused
+        return cache[k][1]
+
+    def relevant_global_facts(self, formulas):
+        """global facts define memoised auxiliary variables (x/y as x*inv with y != 0 -> inv*y == 1; norms).  A fact all of
+        whose auxiliary variables occur nowhere else in the obligation is dropped: leaving out a hypothesis is always sound,
+        and such a fact cannot contribute (its auxiliary variable can always be chosen to satisfy it)."""
+        used = set()
+        for f in formulas:
+            used |= self._memo_names(f)
+        pending = [(f, self._memo_names(f)) for f in self.global_facts]
+        keep, changed = [], True
+        while changed:
+            changed = False
+            rest = []
+            for f, ns in pending:
+                if not ns or ns & used:
+                    keep.append(f)
+                    if ns - used:
+                        used |= ns
+                        changed = True
+                else:
+                    rest.append((f, ns))
+            pending = rest
+        order = {f.get_id(): k for k, f in enumerate(self.global_facts)}
+        return sorted(keep, key=lambda f: order[f.get_id()])
 
     # ------------------------------------------------------------------ spec evaluation
     def spec_eval(self, text, st, contract=None):
@@ -1673,6 +1706,15 @@ class Engine(ExprMixin, CallMixin):
         for o in outs:
             if o.kind == "raise":
                 if o.exc in allowed:
+                    if o.exc in getattr(c, "raises_exact", ()) and allowed[o.exc] != "?":
+                        # opt-in: the declared condition of this exceptional exit is proved, not only used at call sites:
+                        # here "raised only when cond" (cond over the entry values of the parameters) ...
+                        pr = o.st.copy()
+                        pr.env = dict(o.st.env)
+                        for p_ in c.params:
+                            pr.env[p_] = entry.env[p_]
+                        pr.old = entry
+                        self.emit(f"raises.{o.exc}.only-when", pr, self.spec_eval(allowed[o.exc], pr), getattr(o, "node", None) or fdef, kind="post")
                     continue
                 nd = getattr(o, "node", None)
                 snippet = _snip(nd)
@@ -1701,6 +1743,11 @@ class Engine(ExprMixin, CallMixin):
             post.old = entry
             for cmd in getattr(c, "ghost_exit", []) if not is_stop else []:  # ghost commands run at every normal exit (e.g. naming a callee's ghost results)
                 self.ghost_cmd(cmd, post, fdef, {"at": "exit", "label": "exit"})
+            for exc_ in getattr(c, "raises_exact", ()) if not is_stop else ():
+                # ... and here "whenever cond, the call does not return normally" (every other exception type is an obligation
+                # safe.no_<Exc>, so under cond the only possible exit is this exception)
+                if allowed.get(exc_, "?") != "?":
+                    self.emit(f"raises.{exc_}.whenever", post, NOT(self.spec_eval(allowed[exc_], post)), fdef, kind="post")
             elsewhere = getattr(c, "ensures_in_variant", {})
             for k, text in enumerate(getattr(c, "stop_ensures", [])) if is_stop else ():
                 label = getattr(c, "stop_ensures_labels", {}).get(k, str(k))
